@@ -53,6 +53,9 @@ Proof. unfold mine. cbn. rewrite Nat.eqb_refl. reflexivity. Qed.
 Lemma mine_cons_other t t' p h : t' <> t -> mine t' ((t, p) :: h) = mine t' h.
 Proof. unfold mine. cbn. intros H. destruct (Nat.eqb_spec t t'); [congruence|reflexivity]. Qed.
 
+Lemma mine_app t h h' : mine t (h ++ h') = mine t h ++ mine t h'.
+Proof. unfold mine. rewrite filter_app, map_app. reflexivity. Qed.
+
 Lemma mine_rm1_other t t' p h : t' <> t -> mine t' (rm1 t p h) = mine t' h.
 Proof.
   intros Hne. induction h as [|[t0 q] r IH]; [reflexivity|]. cbn [rm1].
@@ -117,6 +120,10 @@ Record InvB (N : nat) (g : G) (a : Aux2) (tr : trace) : Prop := {
 
 Lemma frame_hands_cons (h : hands) d t p : Conc.frame view2 t (h, d) ((t, p) :: h, d).
 Proof. intros t' H. unfold view2. cbn [fst snd]. rewrite mine_cons_other by exact H. reflexivity. Qed.
+Lemma frame_hands_snoc (h : hands) d t p : Conc.frame view2 t (h, d) (h ++ [(t, p)], d).
+Proof.
+  intros t' H. unfold view2. cbn [fst snd]. rewrite mine_app. rewrite mine_cons_other by exact H. cbn. rewrite app_nil_r. reflexivity.
+Qed.
 Lemma frame_hands_rm1 (h : hands) d t p : Conc.frame view2 t (h, d) (rm1 t p h, d).
 Proof. intros t' H. unfold view2. cbn [fst snd]. rewrite mine_rm1_other by exact H. reflexivity. Qed.
 
@@ -146,16 +153,17 @@ Lemma is_dispose_done q : is_dispose q (EvCli "done" []) = false. Proof. reflexi
 
 (** "retire p": the object is in the caller's hands *)
 Lemma InvB_retire N g h d tr t p :
-  (t < N)%nat -> d t = false -> InvB N g (h, d) tr -> InvB N g ((t, p) :: h, d) (tr ++ [(t, EvCli "retire" [p])]).
+  (t < N)%nat -> d t = false -> InvB N g (h, d) tr -> InvB N g (h ++ [(t, p)], d) (tr ++ [(t, EvCli "retire" [p])]).
 Proof.
   intros Ht Hdt [H1 H3 H4 H5]. cbn [fst snd] in *. constructor; cbn [fst snd].
-  - intros q. unfold nret, ndisp. rewrite !cnt_ev_snoc. cbn [map snd]. rewrite cz_cons.
-    specialize (H1 q). unfold nret, ndisp in H1.
+  - intros q. unfold nret, ndisp. rewrite !cnt_ev_snoc. rewrite map_app, cz_app. cbn [map snd]. rewrite cz_cons.
+    specialize (H1 q). unfold nret, ndisp in H1. change (cz q []) with O.
     destruct (Z.eq_dec p q) as [->|Nq].
     + rewrite is_retire_self, is_dispose_retire. lia.
     + rewrite is_retire_other by congruence. rewrite is_dispose_retire. lia.
-  - intros t0 Hd. destruct (Nat.eq_dec t0 t) as [->|Ne]; [congruence|]. rewrite mine_cons_other by exact Ne. apply H3; exact Hd.
-  - intros x [<-|Hx]; [exact Ht|apply H4; exact Hx].
+  - intros t0 Hd. destruct (Nat.eq_dec t0 t) as [->|Ne]; [congruence|]. rewrite mine_app, mine_cons_other by exact Ne.
+    rewrite (H3 t0 Hd). reflexivity.
+  - intros x Hx. apply in_app_or in Hx. destruct Hx as [Hx|[<-|[]]]; [apply H4; exact Hx|exact Ht].
   - intros t0 i Hat. destruct (at_snoc_inv _ _ _ _ _ _ Hat) as [Hat'|(_ & _ & X)]; [eapply H5; eauto|discriminate].
 Qed.
 
